@@ -238,7 +238,10 @@ class IntervalGrader(SingleListGrader):
         best = None
         for bracket in answers:
             if student_answer in bracket['expect']:  # bracket['except'] is a normal expect tuple
-                if best is None or bracket['grade_decimal'] > best['grade_decimal']:
+                # As for any item with alternatives, ties in credit go to the longest message
+                if (best is None or bracket['grade_decimal'] > best['grade_decimal']
+                        or (bracket['grade_decimal'] == best['grade_decimal']
+                            and len(bracket['msg']) > len(best['msg']))):
                     best = bracket
 
         # If no answer was found, zero out the score
